@@ -7,6 +7,7 @@ CONSTANTS
   FixNonce = FALSE
   FixUnpad = FALSE
   FixProto = FALSE
+  FixShardLens = FALSE
 INIT MBTInit
 NEXT MBTNext
 CHECK_DEADLOCK FALSE
